@@ -39,6 +39,56 @@ def safe_interior(node, x):
     return True
 
 
+def raytracing_suite(rnd, count, findings):
+    """LayeredRayTracing2D: gradient() vs the derivative of misfit()"""
+    from hmclab.Distributions import LayeredRayTracing2D
+    from ..probes import quiet
+
+    sr = Suite("C05.raytracing", "LayeredRayTracing2D (serial ray tracing): (a) _dmisfitdsyn vs central differences of _misfit with respect to every synthetic travel time "
+               "(the misfit is quadratic in them: exact up to rounding; theorem rayMisfit_expand), (b) homogeneous models, in which scaling all velocities moves no ray: "
+               "u . gradient(m) for u = (1, .., 1) vs the central difference of the public misfit() along u; 1e-4 relative; non-trivial = >= 3 layers")
+    for ci in range(count):
+        n = rnd.choice([2, 3, 4, 5])
+        inter = np.cumsum([rnd.choice([200.0, 300.0, 400.0, 500.0]) for _ in range(n)])
+        nrec = rnd.choice([6, 10, 14])
+        rz = np.linspace(0.1 * inter[-1], 0.93 * inter[-1], nrec)
+        xr = rnd.choice([300.0, 500.0, 800.0])
+        v = rnd.choice([1500.0, 1800.0, 2500.0])
+        with quiet(), np.errstate(all="ignore"):
+            ph = LayeredRayTracing2D(inter, [xr], rz)
+            ph.parallel = False
+            obs = np.array(ph.forward(np.ones(n) * v * rnd.uniform(0.9, 1.1)), dtype=float) + np.array([rnd.gauss(0, 2e-4) for _ in range(nrec)])
+            t = LayeredRayTracing2D(inter, [xr], rz, traveltimes_observed=obs)
+            t.parallel = False
+            stim = {"interfaces": inter.tolist(), "offset": xr, "receivers": rz.tolist(), "velocity": v}
+            sr.case(stim, nontrivial=n >= 3, sample=stim if len(sr.samples) < 2 else None)
+            problems = []
+            # (a) derivative with respect to the synthetic travel times
+            syn = obs + np.array([rnd.gauss(0, 1e-3) for _ in range(nrec)])
+            dX = np.array(t._dmisfitdsyn(tts_obs=obs, tts_syn=syn), dtype=float)
+            h = 1e-4
+            for j in range(nrec):
+                e = np.zeros(nrec)
+                e[j] = h
+                fd = (t._misfit(obs, syn + e) - t._misfit(obs, syn - e)) / (2 * h)
+                if not common.close(fd, dX[j], 1e-6, 1e-6 * float(np.max(np.abs(dX)))):
+                    problems.append(f"_dmisfitdsyn[{j}] = {dX[j]!r} but d _misfit / d tt_{j} = {fd!r} (ratio {fd / dX[j] if dX[j] else float('nan'):.6f})")
+                    break
+            # (b) the public pair along the direction that moves no ray
+            m = np.ones((n, 1)) * v
+            g = np.array(t.gradient(m.copy()), dtype=float)
+            hh = 0.5
+            fd = (float(t.misfit(m + hh)) - float(t.misfit(m - hh))) / (2 * hh)
+            ug = float(np.sum(g))
+            if g.shape != (n, 1):
+                problems.append(f"gradient shape {g.shape}")
+            elif not common.close(fd, ug, 1e-4, 1e-4 * abs(fd) + 1e-9):
+                problems.append(f"homogeneous model v={v}: u.gradient(m) = {ug!r} but d/dh misfit(m + h u) = {fd!r} (ratio {fd / ug if ug else float('nan'):.6f})")
+        if problems:
+            findings.append(Finding("C05", "LayeredRayTracing2D: " + problems[0][:300], {"kind": "raytracing-gradient"}, {"oracle": "finite-difference", "stimulus": stim, "problems": problems}))
+    return sr
+
+
 def run(tier, seed):
     rnd = random.Random(214013 * seed + 5)
     thorough = tier == "thorough"
@@ -107,7 +157,8 @@ def run(tier, seed):
         grad_ok = (not math.isfinite(m)) or common.vclose(mg, g, 1e-8, 1e-9)
         if not (common.close(mm, m, 1e-8, 1e-9) and g.shape == (d, 1) and grad_ok):
             st.disagree(stim, {"misfit": mm, "gradient": mg}, {"misfit": m, "gradient": np.ravel(g).tolist()}, "misfit/gradient differ from the model")
-    return [st], findings
+    sr = raytracing_suite(random.Random(seed * 2654435761 % (1 << 31) + 5), 12 if thorough else 4, findings)
+    return [st, sr], findings
 
 
 def search(tier, seed, broken):
